@@ -7,6 +7,7 @@ pub mod c05d;
 pub mod c06;
 pub mod c07;
 pub mod c08;
+pub mod c09;
 pub mod c10;
 pub mod c11;
 pub mod c12;
@@ -40,6 +41,7 @@ pub const PROPS: &[PropDef] = &[
     PropDef { id: "C06", level: "exploration", run: c06::run, shards: 12, isolate: true },
     PropDef { id: "C07", level: "exploration", run: c07::run, shards: 8, isolate: false },
     PropDef { id: "C08", level: "fault_enumeration", run: c08::run, shards: 8, isolate: false },
+    PropDef { id: "C09", level: "exploration", run: c09::run, shards: 12, isolate: true },
     PropDef { id: "C10", level: "exploration", run: c10::run, shards: 1, isolate: false },
     PropDef { id: "C11", level: "exploration", run: c11::run, shards: 12, isolate: false },
     PropDef { id: "C12", level: "exploration", run: c12::run, shards: 1, isolate: false },
